@@ -8,6 +8,8 @@ package main
 // fails the renamed contract's obligations - a violation, not an UNDECIDED.
 
 import (
+	"os/exec"
+	"os"
 	"fmt"
 	"regexp"
 	"sort"
@@ -61,7 +63,7 @@ func substText(s, from, to string, fieldToo bool) string {
 	last := 0
 	for _, loc := range re.FindAllStringIndex(s, -1) {
 		b.WriteString(s[last:loc[0]])
-		if !fieldToo && loc[0] > 0 && s[loc[0]-1] == '.' {
+		if !fieldToo && loc[0] > 0 && s[loc[0]-1] == '.' && !eventPrefixBefore(s, loc[0]-1) {
 			b.WriteString(s[loc[0]:loc[1]])
 		} else {
 			b.WriteString(to)
@@ -154,7 +156,13 @@ func (kc *kernelCtx) tryRebind(u *Unit, b *Block, fnPrefix, typeName string, ava
 		return u
 	}
 	miss := missingNames(u)
-	if len(miss) == 0 || len(miss) > 2 {
+	maxMiss := 2
+	if b.first("scope") != nil {
+		// with the scope fingerprint the candidates are exactly the identifiers that are new: a refactoring that renames
+		// three or four things at once can still be followed
+		maxMiss = 4
+	}
+	if len(miss) == 0 || len(miss) > maxMiss {
 		return u
 	}
 	substFields = fieldNamesMissing(u)
@@ -193,6 +201,9 @@ func (kc *kernelCtx) tryRebind(u *Unit, b *Block, fnPrefix, typeName string, ava
 			nb = substBlock(nb, r[0], r[1])
 		}
 		u2 := run(kc.substituted(b.Pkg, fnPrefix, typeName, ren), nb)
+		if os.Getenv("ROVC_DEBUG") != "" {
+			fmt.Fprintf(os.Stderr, "REBIND %s %v -> errs %v\n", b.Name, ren, u2.Errs)
+		}
 		if !hasBindingErr(u2) && !newErrors(u, u2) {
 			var rs []string
 			for _, r := range ren {
@@ -202,17 +213,51 @@ func (kc *kernelCtx) tryRebind(u *Unit, b *Block, fnPrefix, typeName string, ava
 			goodRen = append(goodRen, strings.Join(rs, ", "))
 		}
 	}
-	if len(miss) == 1 {
-		for _, c := range cands {
-			try([][2]string{{miss[0], c}})
+	// every injective assignment of candidates to the missing names
+	var assign func(i int, used map[string]bool, cur [][2]string)
+	assign = func(i int, used map[string]bool, cur [][2]string) {
+		if i == len(miss) {
+			try(append([][2]string{}, cur...))
+			return
 		}
-	} else {
-		for _, c1 := range cands {
-			for _, c2 := range cands {
-				if c1 != c2 {
-					try([][2]string{{miss[0], c1}, {miss[1], c2}})
+		for _, c := range cands {
+			if used[c] {
+				continue
+			}
+			used[c] = true
+			assign(i+1, used, append(cur, [2]string{miss[i], c}))
+			used[c] = false
+		}
+	}
+	if len(miss) <= 2 || len(cands) <= 5 {
+		assign(0, map[string]bool{}, nil)
+	}
+	if len(good) > 1 {
+		// several renamings bind: keep those under which no obligation fails on its face (a closed fact that is false,
+		// such as a lock that is not the one held). For unchanged behaviour the right renaming is always among them, so
+		// a unique survivor is the right one; with none or several the contract stays unbound.
+		var clean []*Unit
+		var cleanRen []string
+		for i, g := range good {
+			bad := 0
+			for _, o := range g.Obls {
+				if o.Cover {
+					continue
+				}
+				if o.Backend == "structural" && o.Status == "failed" {
+					bad++
+				}
+				if o.Backend == "smt" && o.SMT != "" && quickSat(o.SMT) {
+					bad++ // refuted at once: this reading of the names does not hold
 				}
 			}
+			if bad == 0 {
+				clean = append(clean, g)
+				cleanRen = append(cleanRen, goodRen[i])
+			}
+		}
+		if len(clean) == 1 {
+			good, goodRen = clean, cleanRen
 		}
 	}
 	if len(good) != 1 {
@@ -349,4 +394,28 @@ func (kc *kernelCtx) rebindClosure(u *Unit, b *Block) *Unit {
 	u2.Name = u.Name
 	u2.Rebound = "closure " + b.Name + " is now " + cands[0]
 	return u2
+}
+
+// eventPrefixBefore: the '.' at position dot follows an event kind that is named after a variable (lock.mu, unlock.mu,
+// trylock.mu, chsend.ch, chrecv.ch, chclose.ch): what comes after it is that variable's name, not a field.
+func eventPrefixBefore(s string, dot int) bool {
+	j := dot
+	for j > 0 && (s[j-1] == '_' || s[j-1] >= 'a' && s[j-1] <= 'z' || s[j-1] >= 'A' && s[j-1] <= 'Z' || s[j-1] >= '0' && s[j-1] <= '9') {
+		j--
+	}
+	switch s[j:dot] {
+	case "lock", "unlock", "trylock", "chsend", "chrecv", "chclose":
+		return j == 0 || s[j-1] != '.'
+	}
+	return false
+}
+
+// quickSat asks the newest solver, with a short timeout, whether the negated obligation has a model (only used to choose
+// between several renamings that all bind; the result never decides an obligation).
+func quickSat(smt string) bool {
+	cmd := exec.Command("z3-new", "-T:3", "-in")
+	cmd.Stdin = strings.NewReader(strings.Replace(smt, "(get-model)", "", 1))
+	out, _ := cmd.Output()
+	first := strings.TrimSpace(strings.SplitN(string(out), "\n", 2)[0])
+	return first == "sat"
 }
